@@ -160,6 +160,7 @@ Definition multiply_m (a b : circuit) : res circuit :=
       let none := {| mnodes := mnodes st; mtbl := mtbl st ++ [None] |} in
       if sdisjoint (nth i sa []) (nth j sb []) then
         if out_units l1 =? out_units l2 then add [(LKron (out_units l1) 2, [i; na + j])] else none
+      else if negb (seqb (nth i sa []) (nth j sb [])) then none   (* overlapping but different scopes: refused *)
       else if is_input l1 then
         match multiply_inputs l1 l2 with Ok l => add [(l, [])] | Err _ => none end
       else
